@@ -96,7 +96,7 @@ impl<'a> Hist<'a> {
                     .unwrap()
                     .handle
                     .trigger_rotation()
-                    .map_err(|e| StepErr::Op(format!("trigger_rotation: {e}")))?;
+                    .map_err(|e| StepErr::Op(format!("trigger_rotation: {e} ({e:?})")))?;
             }
             HOp::F => self.live.as_ref().unwrap().handle.flush(),
             HOp::T(s) => self.env.clock.advance_secs(s),
